@@ -20,9 +20,10 @@ import (
 //
 // script items (one per read): P processing instruction, S1 stream header with id, S0 without
 // id, Sx a header FromStartElement rejects, K <handshake/>, X stream error, O other element,
-// T character data. Events: W / W! / Wb writes, R / Re / R! / Rb reads.
+// T character data, K2 <handshake></handshake>, Ko the start tag <handshake> alone, Kc the end tag
+// </handshake> alone. Events: W / W! / Wb writes, R / Re / R! / Rb reads.
 
-var compItems = []string{"P", "S1", "S0", "Sx", "K", "X", "O", "T"}
+var compItems = []string{"P", "S1", "S0", "Sx", "K", "K2", "Ko", "Kc", "X", "O", "T"}
 
 func compItem(code string) c01.Item {
 	switch code {
@@ -36,6 +37,12 @@ func compItem(code string) c01.Item {
 		return c01.Item{Kind: 'S', NS: 1}
 	case "K":
 		return c01.Item{Kind: 'K'}
+	case "K2":
+		return c01.Item{Kind: 'K', NS: 2}
+	case "Ko":
+		return c01.Item{Kind: 'K', NS: 3}
+	case "Kc":
+		return c01.Item{Kind: 'K', NS: 4}
 	case "X":
 		return c01.Item{Kind: 'X'}
 	case "O":
@@ -57,6 +64,14 @@ func compCode(it c01.Item) string {
 		}
 		return "S0"
 	case 'K':
+		switch it.NS {
+		case 2:
+			return "K2"
+		case 3:
+			return "Ko"
+		case 4:
+			return "Kc"
+		}
 		return "K"
 	case 'X':
 		return "X"
@@ -81,6 +96,14 @@ func compRender(it c01.Item, pos int) []byte {
 		}
 		return []byte(fmt.Sprintf(`<stream:stream xmlns='jabber:component:accept' xmlns:stream='%s' from='comp.example.net'>`, ns))
 	case 'K':
+		switch it.NS {
+		case 2:
+			return []byte(`<handshake></handshake>`)
+		case 3:
+			return []byte(`<handshake>`)
+		case 4:
+			return []byte(`</handshake>`)
+		}
 		return []byte(`<handshake/>`)
 	case 'X':
 		return []byte(fmt.Sprintf(`<stream:error xmlns:stream='%s'><host-gone xmlns='urn:ietf:params:xml:ns:xmpp-streams'/></stream:error>`, ns))
@@ -130,7 +153,7 @@ func doComp(e *c01.Emitter, codes []string, fault string, class string) {
 	if res.Outcome == "done" {
 		acked, withID := false, false
 		for _, c := range codes {
-			if c == "K" {
+			if c == "K" || c == "K2" || c == "Kc" {
 				acked = true
 			}
 			if c == "S1" {
@@ -163,7 +186,7 @@ func runComponent(e *c01.Emitter) {
 	}
 	rec(nil)
 	// the good handshakes under every fault
-	for _, good := range [][]string{{"S1", "K"}, {"P", "S1", "K"}} {
+	for _, good := range [][]string{{"S1", "K"}, {"P", "S1", "K"}, {"S1", "K2"}, {"S1", "Ko", "Kc"}, {"P", "S1", "Ko", "T", "Kc"}} {
 		ops := len(good) + 2
 		for k := 0; k <= ops; k++ {
 			doComp(e, good, fmt.Sprint(k), "fault")
